@@ -63,6 +63,37 @@ CHECKS = {
             "the class of the same name.",
             "Trusted: z3; ofxgen.py reachability search (native); harness/common.py structural equality.",
             "DESIGN.md section 3 C13", ""),
+    "C16": (True,
+            "Per class, an instance with symbolic presence of optional sub-aggregates and a symbolic attribute name (names declared below the "
+            "class, undefined names, protocol dunders) goes through the instrumented Aggregate.__getattr__; oracle = explicit walk over __dict__. "
+            "hasattr/getattr-default/copy/deepcopy/pickle are run on every explored instance; the statements/securities/signon/account/... "
+            "shortcuts are compared with the path walk over symbolic mixes of wrappers.",
+            "Trusted: z3; ofxgen.py instance construction; reference walk in harness/c16.py. copy/pickle themselves run natively.",
+            "DESIGN.md section 3 C16", ""),
+    "C03": (True,
+            "Per class, the document of a valid instance with one element text symbolic over its type's lexical space (Y/N, signed digits, "
+            "decimals with either separator, character data with an entity escape at a symbolic position, every enumeration token, date-time and "
+            "time notations with symbolic digits; for lists the member position is symbolic) goes through the instrumented "
+            "from_etree/_convert/update_args/__init__/descriptors/converters; z3 proves the attribute equals an independent implementation of the "
+            "type rules, has the native type, and that nothing else changed.",
+            "Trusted: z3; reference type rules of harness/c09.py and c10.py; ofxgen.py documents.",
+            "DESIGN.md section 3 C03", ""),
+    "C07": (True,
+            "Per class, one (quick) or two (thorough) nodes are inserted at a symbolic position of a symbolic host aggregate (depth <= 2): unknown "
+            "data element / empty element / aggregate with otherwise-known content, with a symbolic 2-character tag constrained to differ from every "
+            "child name, or vendor-prefixed element / aggregate; the instrumented from_etree must not raise and must return a model structurally "
+            "equal to the conversion of the clean document, with one UnknownTagWarning per non-vendor insertion.",
+            "Trusted: z3; harness/common.py structural equality; element-tree carriers are real ET.Element objects.",
+            "DESIGN.md section 3 C07", ""),
+    "C01": (True,
+            "Compositional: (1) structure lemma per class - symbolic presence of optional children, symbolic member types/order, symbolic leaf "
+            "values through the instrumented to_etree and from_etree, result structurally equal; (2) value lemma = C10; (3) wire lemma - trees "
+            "<= 4 nodes with symbolic leaf texts over the printable alphabet (incl. & < > and 2-/3-byte UTF-8) through the real "
+            "OFXClient.serialize (all 1xx versions / supported 2xx, pretty x close_elements), parse_header and TreeBuilder.feed over a C-faithful "
+            "builder model: same tree, texts decode to the originals.",
+            "Trusted: z3; models of ET.tostring(method=html), BytesIO, utf-8 codec, the C TreeBuilder state machine (each validated per path "
+            "against the real implementation); composition argument of DESIGN section 3 C01.",
+            "DESIGN.md section 3 C01", ""),
 }
 
 NOT_YET = {
